@@ -194,13 +194,15 @@ func hsInput(x *Ctx, rng *vlib.Rng, valid, other []byte, regions []Region, keepP
 				padOff = r.Off
 			}
 		}
-		target := maxLen - 32 + c.A
+		deltas := []int{-48, -33, -32, -31, -17, -16, -15, -1, 0, 1, 15, 16, 17, 31, 32, 33, 100}
+		d := deltas[((c.A%len(deltas))+len(deltas))%len(deltas)]
+		target := maxLen - 32 + d
 		if target < markOff {
 			return valid, "mark-at-boundary(n/a: already beyond)", true
 		}
 		ins := rng.Bytes(target - markOff)
 		in = append(append(append([]byte(nil), valid[:padOff]...), ins...), valid[padOff:]...)
-		return in, fmt.Sprintf("mark moved to %d (max %d, d=%d)", target, maxLen, c.A), false
+		return in, fmt.Sprintf("mark moved to %d (max %d, d=%d)", target, maxLen, d), false
 	case c.Gen == "splice-two":
 		if other == nil {
 			other = rng.Bytes(len(valid))
